@@ -43,6 +43,9 @@ type C08Case struct {
 	PrevAgr  int    `json:"prev_agreed"` // previous outcome agrees on this many staged results (removed by the pre-build hook)
 	PrevSurf int    `json:"prev_surfaced"`
 	Order    uint64 `json:"order"` // insertion order seed
+	Rollback bool   `json:"rollback,omitempty"` // an earlier, HIGHER block history (another fork) is delivered first: the view moves backwards
+	Restage  int    `json:"restage,omitempty"`  // the first k logs are staged at block 1000, and staged again at block 1001 four minutes later (twin: only the later)
+	AccLower bool   `json:"acc_lower,omitempty"` // in-flight reports for proposals carry a LOWER check block than the stored proposal
 	WarmSeq  uint64 `json:"warm_seq,omitempty"` // if non-zero: Observation is first called with this sequence number (exercises the sorter memo)
 	// observed
 	Perf   []int  `json:"perf,omitempty"`
@@ -121,7 +124,10 @@ func runC08(t *testing.T, c *C08Case) {
 	}
 	orderB := rng.Perm(c.Staged)
 	a, recA := mk(orderA)
-	b, _ := mk(orderB)
+	if c.Restage > 0 {
+		orderB = nil // the twin only ever sees the later checks
+	}
+	b, recB := mk(orderB)
 	peer := NewNode(t, NodeOpts{N: 4, F: 1, Oracle: 3, Digest: cd})
 	defer func() {
 		time.Sleep(2 * time.Second)
@@ -148,11 +154,43 @@ func runC08(t *testing.T, c *C08Case) {
 	for i := 0; i < c.HistLen; i++ {
 		hist = append(hist, common.BlockKey{Number: common.BlockNumber(5000 - i), Hash: Hash32("h", 5000-i)})
 	}
+	if c.Rollback {
+		var old common.BlockHistory
+		for i := 0; i < c.HistLen+20; i++ {
+			old = append(old, common.BlockKey{Number: common.BlockNumber(6000 - i), Hash: Hash32("oldfork", 6000-i)})
+		}
+		a.Blocks.Publish(old)
+		b.Blocks.Publish(old)
+		time.Sleep(time.Second)
+		synctest.Wait()
+	}
 	a.Blocks.Publish(hist)
 	b.Blocks.Publish(hist)
 	time.Sleep(7 * time.Second) // log flow (1 s), recovery proposal flow (1 s), two sampling ticks (3 s)
 	synctest.Wait()
 	a.Getter.Set(nil) // freeze the conditional view
+	if c.Restage > 0 {
+		// four minutes later the first k logs are checked again on block 1001 (a strictly higher check block
+		// replaces the staged result and must count as freshly staged); the twin stages only these
+		time.Sleep(4 * time.Minute)
+		synctest.Wait()
+		var again []common.UpkeepPayload
+		for i := 0; i < c.Restage && i < c.Staged; i++ {
+			p := logPayload(i, 1001)
+			recA.mu.Lock()
+			recA.pd[p.WorkID] = pdFor(c, i)
+			recA.mu.Unlock()
+			recB.mu.Lock()
+			recB.pd[p.WorkID] = pdFor(c, i)
+			recB.mu.Unlock()
+			again = append(again, p)
+		}
+		a.Logs.Push(again...)
+		b.Logs.Push(again...)
+		// ... and 90 s after that the results staged first (and not replaced) are past the 5-minute TTL
+		time.Sleep(90 * time.Second)
+		synctest.Wait()
+	}
 
 	// which conditional upkeeps were sampled (= proposed)
 	recA.mu.Lock()
@@ -168,6 +206,9 @@ func runC08(t *testing.T, c *C08Case) {
 	// in flight: accepted reports for some staged results and some proposals
 	blocked := map[string]bool{}
 	accept := func(nd *Node, p common.UpkeepPayload) {
+		if c.AccLower && p.Trigger.BlockNumber > 20 && p.Trigger.BlockNumber != 1000 {
+			p.Trigger.BlockNumber -= 10 // the accepted report was checked on an earlier block than the stored proposal
+		}
 		rep, _ := nd.Enc.Encode(common.CheckResult{Eligible: true, UpkeepID: p.UpkeepID, Trigger: p.Trigger, WorkID: p.WorkID, GasAllocated: 1, FastGasWei: bigMax(), LinkNative: bigMax()})
 		_, _ = nd.Plugin.ShouldAcceptAttestedReport(context.Background(), 1, ocr3types.ReportWithInfo[plugin.AutomationReportInfo]{Report: rep})
 	}
@@ -270,6 +311,12 @@ func runC08(t *testing.T, c *C08Case) {
 	var shs []string
 	for i := 0; i < c.Staged; i++ {
 		p := logPayload(i, 1000)
+		if c.Restage > 0 {
+			if i >= c.Restage {
+				continue // expired: staged once, more than five minutes ago
+			}
+			p = logPayload(i, 1001)
+		}
 		if removed[p.WorkID] {
 			continue
 		}
@@ -354,6 +401,11 @@ func boundary() []C08Case {
 	add(C08Case{Family: "six-props-per-type", Seq: 41, Digest: 1, Staged: 3, LogProps: 6, CondUpk: 9, HistLen: 3})
 	add(C08Case{Family: "props-in-flight", Seq: 42, Digest: 1, Staged: 3, LogProps: 7, CondUpk: 9, PropsFly: 6, HistLen: 3})
 	add(C08Case{Family: "previous-outcome-removes", Seq: 43, Digest: 1, Staged: 130, PDMode: 2, LogProps: 7, CondUpk: 6, PrevAgr: 40, PrevSurf: 5, HistLen: 3})
+	add(C08Case{Family: "history-moves-backwards", Seq: 44, Digest: 1, Staged: 4, HistLen: 30, Rollback: true})
+	add(C08Case{Family: "history-moves-backwards-long", Seq: 46, Digest: 2, Staged: 0, HistLen: 300, Rollback: true})
+	add(C08Case{Family: "proposal-in-flight-at-lower-block", Seq: 47, Digest: 1, Staged: 3, LogProps: 7, CondUpk: 9, PropsFly: 6, HistLen: 3, AccLower: true})
+	add(C08Case{Family: "restaged-higher-block-outlives-first-ttl", Seq: 48, Digest: 1, Staged: 12, Restage: 5, PDMode: 2, HistLen: 3})
+	add(C08Case{Family: "restaged-all", Seq: 49, Digest: 2, Staged: 30, Restage: 30, PDMode: 2, HistLen: 3})
 	add(C08Case{Family: "thousands-staged", Seq: 50, Digest: 2, Staged: 3000, PDMode: 0, InFlight: 50, HistLen: 256, LogProps: 5, CondUpk: 5})
 	return cs
 }
@@ -373,6 +425,11 @@ func random08(r *Rng) C08Case {
 	c.HistLen = []int{0, 1, 20, 255, 256, 257, 400}[r.Intn(7)]
 	if r.Chance(1, 3) {
 		c.WarmSeq = 1 + r.U64()%1000
+	}
+	c.Rollback = r.Chance(1, 4)
+	c.AccLower = r.Chance(1, 3)
+	if c.Staged > 0 && c.Staged <= 150 && c.PrevAgr == 0 && r.Chance(1, 5) {
+		c.Restage = 1 + r.Intn(c.Staged)
 	}
 	return c
 }
